@@ -60,9 +60,18 @@ def CacheG.del (c : CacheG T) (k : Nat) : CacheG T :=
 def CacheG.expire (c : CacheG T) (fired : List (Nat × Nat)) : CacheG T :=
   fired.foldl (fun c kv => CacheG.del ts c kv.1) c
 
-/-- `SetWithExpire(key, value, _)` with the observed jittered expiry of `ticks` wheel intervals.
-`MoveTimer` with a delay below one interval runs the callback at once (outside the property: expiry ≥ 1 s). -/
+/-- `SetWithExpire(key, value, _)` with the observed jittered expiry of `ticks` wheel intervals: write the map,
+touch the recency list, (re)start the timer with `SetTimer` (which also handles a pending key, and clamps a
+delay below one interval up to one interval). -/
 def CacheG.set (c : CacheG T) (k v ticks : Nat) : CacheG T × CacheOut :=
+  let c1 := CacheG.lruAdd ts { c with data := ainsert c.data k v } k
+  let w := ts c1.1.timers (.set k v ticks)
+  (CacheG.expire ts { c1.1 with timers := w.1 } w.2, { evicted := c1.2, expired := w.2.map (·.1) })
+
+/-- `SetWithExpire` as it was before fixes/C16-cache-reset-subsecond-expiry.patch (kept to state the defect):
+a key already present took the `MoveTimer` path, and `MoveTimer` with a delay below one interval runs the
+expiry callback at once. -/
+def CacheG.setPinned (c : CacheG T) (k v ticks : Nat) : CacheG T × CacheOut :=
   let c1 := CacheG.lruAdd ts { c with data := ainsert c.data k v } k
   let w := ts c1.1.timers (if ahas c.data k then .move k ticks else .set k v ticks)
   (CacheG.expire ts { c1.1 with timers := w.1 } w.2, { evicted := c1.2, expired := w.2.map (·.1) })
